@@ -103,6 +103,37 @@ CLAIMED["C16"] = (
     "DESIGN.md §4 C16",
 )
 
+CLAIMED["C10"] = (
+    "bounded exhaustive protocol exploration: genotype() and estimate_minor() run for real with the three stage functions scripted (full product of score alphabets, one structural transition per level) plus recorded real samples; oracle = independent recomputation of the selection",
+    "Every script over a fixed shape (two structures; 2+1 major candidates; one refinement each) with scores from small alphabets chosen to straddle the solution precision and the gaps {0, 0.1, 0.3}, and every script reached by one transition (a stage answering with nothing, a second refinement, a third structure), is run through the real genotype()/estimate_minor(); the reported list (set, scores, best-first order, empty-stage error) is compared with select_ref() and every reported solution is checked as a chain (alleles vs structure, minors vs majors, diplotype indices). Simulated samples with thinned or half-depth copies are run with recorders around the three stages and the final list is recomputed from the recorded outputs.",
+    "The stage stubs are installed from the harness at run time (no source change). Real samples rarely produce competing candidates; the scripted part carries the exhaustive claim.",
+    "DESIGN.md §4 C10",
+)
+CLAIMED["C13"] = (
+    "bounded exhaustive enumeration of RefSeq-level evidence (planted allele multisets x one deviation incl. phase patterns) instantiated against both builds, and of simulated genotypes aligned against both builds; oracle = equality in RefSeq notation",
+    "For the toy database (opposite strands in hg19/hg38) and generated databases with opposite strands (thorough: shipped databases hg19 vs hg38), every noise-free table of every pair (triple) of minors and every table with one deviation expressible in both coordinate systems, every structure depth vector with one deviation, and twelve simulated genotypes aligned against each build, are solved in both builds; structures, major and minor solutions, scores (1e-2) and added/lost variants in RefSeq notation must agree.",
+    "Reference evidence is scaled per group of variants that share a model site in either build. Differences attributable to a site shared on one strand only (D13) and to tie choice (D7) are known findings with their own signatures.",
+    "DESIGN.md §4 C13",
+)
+CLAIMED["C14"] = (
+    "explicit-state breadth-first search over API operation histories on one process-wide context (state = digest of catalogue, evidence, held results; expansion pruned at seen digests), fresh-process runs per hash seed, and all ordered subsets of candidate major solutions for the minor stage",
+    "Histories: from the empty context and from the stage prefixes, every operation of an alphabet of ~185 (stage calls, every public member of nine classes found by introspection with arity-matched arguments, both writers, query printing, single/multi-gene genotype() incl. a failing gene) is applied (quick: one, thorough: two beyond the prefix); after every operation the catalogue and the evidence must digest like a fresh load, and (finalize) every operation must give the same result from every state, multi-gene runs must equal the union of single runs. Hash seeds 0-7 in fresh processes must give identical output. For four candidate families every ordered subset of <=3 (4) candidates is refined jointly and compared with the solo refinement (three-way oracle for D7/D8).",
+    "Digests sort all sets; scores at 1e-2. The context is a deep copy of a never-touched template that is re-digested before each history.",
+    "DESIGN.md §4 C14",
+)
+CLAIMED["C15"] = (
+    "bounded exhaustive enumeration of evidence tables x threshold settings x one low-quality edit, executed on estimate_major + estimate_minor; metamorphic oracle on the edge plus support invariant in every state",
+    "Every noise-free and one-deviation table (incl. a lone qualifying reference read) of pairs of minors under five threshold settings, and every table obtained by adding 1/5/50 observations below the base-quality or mapping-quality threshold (or both) to one cell or to an unplanted catalogued variant: the complete major and minor output must be unchanged, and every called core variant, novel variant and carried variant must have enough qualifying reads.",
+    "Table level. Quick explores a seed-rotated twelfth of the edits.",
+    "DESIGN.md §4 C15",
+)
+CLAIMED["C17"] = (
+    "bounded exhaustive enumeration of samples x replay parameters; each state runs the command line with --debug in a child process and genotypes the archive (child process and in-process)",
+    "Ten simulated samples of the C01 kind (structures, indels, both strands) and four phase-decisive paired-read samples per world and build, each replayed plainly and with one extra parameter (gap, max_minor_solutions, phase off, an extreme min_coverage) given on the replay only: output files must be byte-identical to the direct run with the same parameters, solutions identical, scores within 1e-2, sample name equal.",
+    "Child processes import aldy from $VERIF_REPO. NA10860 only in the thorough tier.",
+    "DESIGN.md §4 C17",
+)
+
 PENDING_REASON = "check not built yet in this session (design in DESIGN.md §4); not claimed until it runs silently on the unchanged tree"
 NOT_APPLICABLE = {}
 
